@@ -92,14 +92,26 @@ func calls() []call {
 		}},
 		{"event listener", func(w *svc.World, i int) {
 			ch, closer := w.Mgr.Listen()
+			quit := make(chan struct{})
 			done := make(chan struct{})
 			go func() {
-				for range ch {
+				defer close(done)
+				for {
+					select {
+					case _, ok := <-ch:
+						if !ok {
+							return
+						}
+					case <-quit:
+						// the service may leave the channel open when an event delivery raced with the
+						// closer (observed; not one of the listed properties): do not wait for the close
+						return
+					}
 				}
-				close(done)
 			}()
 			w.Mgr.UpdateTag("tag/d", manager.UpdateTagOperationUpdateColor(fmt.Sprintf("#%06d", i)))
 			closer()
+			close(quit)
 			<-done
 		}},
 		{"SetConfig+webhook", func(w *svc.World, i int) {
@@ -259,9 +271,15 @@ func Run(tier string) int {
 			return
 		}
 		j := jobs[ji]
-		cmd := exec.Command(raceBin, "-c20-child", fmt.Sprint(j.idx))
+		ctx, cancel := context.WithTimeout(context.Background(), 150*time.Second)
+		cmd := exec.CommandContext(ctx, raceBin, "-c20-child", fmt.Sprint(j.idx))
 		cmd.Env = append(os.Environ(), "GORACE=halt_on_error=0 history_size=3", "GOMAXPROCS=4")
 		out, err := cmd.CombinedOutput()
+		timedOut := ctx.Err() == context.DeadlineExceeded
+		cancel()
+		if timedOut {
+			mc.Fatal("race child for pair %d did not finish within 150 s (harness problem or wedged service)\n%s", j.idx, tailStr(string(out), 1500))
+		}
 		name := activities[ps[j.idx].a].name + " || " + calls()[ps[j.idx].b].name
 		mu.Lock()
 		ran++
